@@ -766,6 +766,20 @@ func (e *Engine) run(st *State) {
 		e.step(st, f, in)
 	}
 	if st.status == "" {
+		// the harness goroutine itself must not be left blocked
+		for _, t := range st.threads {
+			if t.waitCh != 0 && !t.done && len(t.frames) > 0 && strings.HasPrefix(t.frames[0].fn.Name(), "VerifHarness_") && !strings.Contains(t.frames[0].fn.Name(), "$") {
+				fr := t.frames[len(t.frames)-1]
+				where := fr.fn.String()
+				if fr.ip > 0 && fr.ip <= len(fr.blk.Instrs) {
+					where = e.pos(fr, fr.blk.Instrs[fr.ip-1])
+				}
+				e.failHere(st, e.hprop+".no_block", "block", "goroutine blocked for ever with nothing left to run @ "+where)
+				st.status = "blocked"
+			}
+		}
+	}
+	if st.status == "" {
 		st.status = "returned"
 		e.endOfPath(st)
 	}
